@@ -1732,7 +1732,10 @@ func runAff8(m *Model, r *RuleResult) {
 			continue
 		}
 		for a, co := range v.c {
-			if a != lname && !(co == -1 && strings.HasSuffix(a, "["+assign.elem+"]")) {
+			// height[n], or - heights kept in a slice parallel to the node list - height[i] with i the index of n in that list
+			byElem := strings.HasSuffix(a, "["+assign.elem+"]")
+			byIndex := assign.keyVar != "" && strings.HasSuffix(a, "["+assign.keyVar+"]") && strings.HasSuffix(strings.ReplaceAll(assign.container, " ", ""), ".Nodes")
+			if a != lname && !(co == -1 && (byElem || byIndex)) {
 				okL, whyL = false, "stored layer is "+avalString(s.val)
 			}
 		}
